@@ -51,9 +51,15 @@ func (n *nonce) respond(signature *CosiSignature, private *Key, publics []*Key, 
 	var challengeBytes [32]byte
 	copy(challengeBytes[:], challenge.Bytes())
 
+	if simEnabled {
+		simAcquire("nonce.beforeLock", &n.Mutex)
+	}
 	n.Lock()
 	defer n.Unlock()
 
+	if simEnabled {
+		simYield("nonce.afterLock")
+	}
 	if n.used {
 		if n.challenge != challengeBytes {
 			return nil, ErrCosiNonceReuse
@@ -62,9 +68,15 @@ func (n *nonce) respond(signature *CosiSignature, private *Key, publics []*Key, 
 		return &response, nil
 	}
 
+	if simEnabled {
+		simYield("nonce.afterCheck")
+	}
 	response, err := signature.Response(private, n.random, publics, message)
 	if err != nil {
 		return nil, err
+	}
+	if simEnabled {
+		simYield("nonce.beforeStore")
 	}
 	n.challenge = challengeBytes
 	n.response = *response
